@@ -86,9 +86,9 @@ def run(ctx):
     if ctx.replay:
         fams = [("replay", _module_of(ctx.replay), [ctx.replay], 4000)]
     else:
+        # one executable for all C05 drivers (c05_poissonll.cxx #includes the others: one library build, one link)
         exe = lib.build_driver("c05_poissonll")
-        exe_real = lib.build_driver("c05_realproj")
-        exe_lm = lib.build_driver("c05_listmode")
+        exe_real = exe_lm = exe
         t2 = time.time()
         seam = []
         seeds = [ctx.seed] if q else [ctx.seed, ctx.seed + 1000, ctx.seed + 2000]
@@ -104,10 +104,10 @@ def run(ctx):
         seam.append(t)
         fams.append(("seam", "Trace_PoissonLL", seam, 4000 if q else 12000))
         t = os.path.join(ctx.work, "real.ndjson")
-        lib.run_driver(exe_real, ["run", t, scratch, 12 if q else 96], env={"VERIF_SEED": str(ctx.seed)}, timeout=900, allow_fail=True)
+        lib.run_driver(exe_real, ["real", t, scratch, 12 if q else 96], env={"VERIF_SEED": str(ctx.seed)}, timeout=900, allow_fail=True)
         fams.append(("real", "Trace_PoissonLLReal", [t], 60 if q else 150))
         t = os.path.join(ctx.work, "listmode.ndjson")
-        lib.run_driver(exe_lm, ["run", t, scratch, 40 if q else 400], env={"VERIF_SEED": str(ctx.seed)}, timeout=900, allow_fail=True)
+        lib.run_driver(exe_lm, ["lm", t, scratch, 40 if q else 400], env={"VERIF_SEED": str(ctx.seed)}, timeout=900, allow_fail=True)
         fams.append(("lm", "Trace_PoissonLL", [t], 1500 if q else 4000))
     traces = [t for f in fams for t in f[2]]
     for t in traces:
